@@ -18,6 +18,8 @@ import (
 var (
 	seed       uint64 // 0 = jitter off
 	maxMicros  uint64 = 300
+	slowIdx    = -1 // record index whose worker is held back for slowMicros at every hook (-1 = none)
+	slowMicros uint64
 	inversions int64
 	calls      int64
 	mu         sync.Mutex
@@ -35,6 +37,24 @@ func init() {
 			maxMicros = n
 		}
 	}
+	if s := os.Getenv("VERIF_JITTER_SLOWIDX"); s != "" {
+		if n, err := strconv.Atoi(s); err == nil {
+			slowIdx = n
+		}
+	}
+	if s := os.Getenv("VERIF_JITTER_SLOWUS"); s != "" {
+		if n, err := strconv.ParseUint(s, 10, 64); err == nil {
+			slowMicros = n
+		}
+	}
+}
+
+// ConfigureSlow makes the worker that carries record idx wait for micros at every hook it passes, so that
+// many later records overtake it (idx < 0 switches this off)
+func ConfigureSlow(idx int, micros uint64) {
+	mu.Lock()
+	slowIdx, slowMicros = idx, micros
+	mu.Unlock()
 }
 
 // Configure sets the jitter seed (0 switches jitter off) and clears the counters
@@ -70,7 +90,11 @@ func Jitter(site string, idx int) {
 	atomic.AddInt64(&calls, 1)
 	mu.Lock()
 	s := seed
+	si, sm := slowIdx, slowMicros
 	mu.Unlock()
+	if si >= 0 && idx == si && sm > 0 {
+		time.Sleep(time.Duration(sm) * time.Microsecond)
+	}
 	if s != 0 {
 		h := s
 		for i := 0; i < len(site); i++ {
